@@ -140,7 +140,7 @@ func c02Streams(c *Ctx) {
 			s := fold.SymOfType("c", crN).(fold.Struct)
 			s.F[L.crR] = fold.Iface{V: fold.Sym{Name: "src", NonNil: true}}
 			s.F[L.crMask] = maskLanes()
-			s.F[L.crPos] = fold.Int{Lo: 0, Hi: 1 << 40, Name: "pos"}
+			s.F[L.crPos] = fold.Int{Lo: 0, Hi: bigLen(), Name: "pos"}
 			recv = mm.NewObj("c", s)
 			return []fold.Val{fold.Ref{O: recv}, fold.SymSeq{Name: "p", Len: fold.Int{Lo: 0, Hi: 1 << 30, Name: "len(p)"}}}
 		}, func(mm *fold.Machine, p *fold.Path) {
@@ -238,7 +238,7 @@ func c02Streams(c *Ctx) {
 			s := fold.SymOfType("c", cwN).(fold.Struct)
 			s.F[wW] = fold.Iface{V: fold.Sym{Name: "dst", NonNil: true}}
 			s.F[wMask] = maskLanes()
-			s.F[wPos] = fold.Int{Lo: 0, Hi: 1 << 40, Name: "pos"}
+			s.F[wPos] = fold.Int{Lo: 0, Hi: bigLen(), Name: "pos"}
 			recv = mm.NewObj("c", s)
 			return []fold.Val{fold.Ref{O: recv}, fold.SymSeq{Name: "p", Len: fold.Int{Lo: 0, Hi: 1 << 30, Name: "len(p)"}}}
 		}, func(mm *fold.Machine, p *fold.Path) {
@@ -353,7 +353,7 @@ func c02Frames(c *Ctx) {
 				hmask = fold.Arr{E: []fold.Val{fold.Int{Lo: 0, Hi: 255, Name: "h0"}, fold.Int{Lo: 0, Hi: 255, Name: "h1"}, fold.Int{Lo: 0, Hi: 255, Name: "h2"}, fold.Int{Lo: 0, Hi: 255, Name: "h3"}}}
 				masked = true
 			}
-			h := headerVal(true, 0, 2, masked, hmask, fold.Int{Lo: 0, Hi: 1 << 40, Name: "Length"})
+			h := headerVal(true, 0, 2, masked, hmask, fold.Int{Lo: 0, Hi: bigLen(), Name: "Length"})
 			fr := fold.Struct{F: []fold.Val{h, fold.SymSeq{Name: "payload", Len: fold.Int{Lo: 0, Hi: 1 << 30, Name: "len(payload)"}}}}
 			if sp.withMask {
 				return []fold.Val{fr, maskLanes()}
